@@ -49,6 +49,8 @@ def setup(J):
             jobs.append(comp(f"concatenator-k{k}", tier, {"comp": "concatenator", "k": k, "two": 0}))
             jobs.append(comp(f"concatenator-k{k}-two", tier, {"comp": "concatenator", "k": k, "two": 1}))
             jobs.append(comp(f"sources-k{k}", tier, {"comp": "sources", "k": k}, mode="delay", delay=1))
+            if k < 3:
+                jobs.append(comp(f"sources-k{k}-blank-lines", tier, {"comp": "sources", "k": k, "blank": 1}, mode="delay", delay=0 if q else 1))
             if k > 0:
                 jobs.append(comp(f"sources-k{k}-no-final-newline", tier, {"comp": "sources", "k": k, "newline": 0}, mode="delay", delay=0 if q else 1))
         # Concatenator with GroupByTag: every assignment of {untagged, x, y} to 0..3 inputs (0..4 in thorough)
@@ -62,5 +64,5 @@ def setup(J):
             for pat in ("*.txt", "*", "d/*.txt", "*/a.txt", "x?.txt", "nomatch*"):
                 jobs.append(comp(f"globber-t{ti}-{pat.replace('/', '_').replace('*', 'S').replace('?', 'Q')}", tier, {"comp": "globber", "pattern": pat, "tree": tr}, mode="delay", delay=0, budget=10))
         return {"level": "model_checking", "stages": [lambda ctx, prev: jobs],
-                "rule": "real components wired to recorder processes; FileCombinator/ParamCombinator: 1-3 (4) ports x lengths 0..2 (+ beyond the buffer with independent upstreams) x every map-iteration variant x schedules (DPOR closed for small, delay bound 1 otherwise): aligned tuples = Cartesian product, each once; IPSelectorSync: 1-3 ports x length <= 3 x ALL predicate outcome patterns; FileSplitter: 0..7 lines x 1..4 lines per split x {with, without} final newline, + 2-3 files through one instance; Concatenator: 0..3 inputs, one or two upstreams; with GroupByTag: every assignment of {untagged, x, y} to 0..3 (4) inputs; sources / readers: lists of length 0..3 (line files with and without a final newline); FileGlobber: 6 patterns x 3 trees against an independent matcher, dependent globber behind 1..3 (0..4) upstream tasks",
+                "rule": "real components wired to recorder processes; FileCombinator/ParamCombinator: 1-3 (4) ports x lengths 0..2 (+ beyond the buffer with independent upstreams) x every map-iteration variant x schedules (DPOR closed for small, delay bound 1 otherwise): aligned tuples = Cartesian product, each once; IPSelectorSync: 1-3 ports x length <= 3 x ALL predicate outcome patterns; FileSplitter: 0..7 lines x 1..4 lines per split x {with, without} final newline, + 2-3 files through one instance; Concatenator: 0..3 inputs, one or two upstreams; with GroupByTag: every assignment of {untagged, x, y} to 0..3 (4) inputs; sources / readers: lists of length 0..3 (line files with and without a final newline, with blank lines inside and at the end; an empty item is an item); FileGlobber: 6 patterns x 3 trees against an independent matcher, dependent globber behind 1..3 (0..4) upstream tasks",
                 "assumptions": J.BASE_ASSUMPTIONS + ["an exact multiple of the line limit produces a trailing empty part, which the statement allows", "selector streams have equal lengths (inconsistent closing is rejected by design)"]}
